@@ -1,3 +1,126 @@
 // Kani harnesses for src/packet/header.rs (child module: sees private items). See /verif/DESIGN.md 8.1 Engine K.
 #![allow(dead_code, unused_imports)]
 use super::*;
+use crate::verif_kani::Sink;
+
+/// the error message of the "bit 7 clear" arm is formatted: not part of the property
+fn k02_no_format(_args: std::fmt::Arguments<'_>) -> String {
+    String::new()
+}
+
+/// Decoded header per RFC 9580 4.2, written from the RFC text, independent of the code:
+///   octet 0: bit 7 always one; bit 6 = 1 OpenPGP format (type id = bits 5..0, length 4.2.1),
+///            bit 6 = 0 legacy format (type id = bits 5..2, length type = bits 1..0:
+///            0 one octet, 1 two octets BE, 2 four octets BE, 3 indeterminate).
+#[derive(PartialEq, Eq, Clone, Copy)]
+enum K02Len {
+    Fixed(u32),
+    Partial(u32),
+    Indeterminate,
+}
+#[derive(Clone, Copy)]
+enum K02Dec {
+    /// bit 7 of the first octet is clear: not a packet header
+    Invalid,
+    /// the header is cut short
+    Truncated,
+    Ok { new_format: bool, type_id: u8, len: K02Len, used: usize },
+}
+fn k02_be(inp: &[u8]) -> u32 {
+    let mut v: u32 = 0;
+    let mut i = 0;
+    while i < inp.len() {
+        v = (v << 8) | inp[i] as u32;
+        i += 1;
+    }
+    v
+}
+fn rfc9580_4_2(inp: &[u8]) -> K02Dec {
+    if inp.len() < 1 {
+        return K02Dec::Truncated;
+    }
+    let h = inp[0];
+    if h & 0x80 == 0 {
+        return K02Dec::Invalid;
+    }
+    let rest = &inp[1..];
+    if h & 0x40 != 0 {
+        let type_id = h & 0x3F;
+        if rest.len() < 1 {
+            return K02Dec::Truncated;
+        }
+        let o1 = rest[0] as u32;
+        if o1 < 192 {
+            K02Dec::Ok { new_format: true, type_id, len: K02Len::Fixed(o1), used: 2 }
+        } else if o1 <= 223 {
+            if rest.len() < 2 {
+                return K02Dec::Truncated;
+            }
+            K02Dec::Ok { new_format: true, type_id, len: K02Len::Fixed(((o1 - 192) << 8) + rest[1] as u32 + 192), used: 3 }
+        } else if o1 < 255 {
+            K02Dec::Ok { new_format: true, type_id, len: K02Len::Partial(1u32 << (o1 & 0x1F)), used: 2 }
+        } else {
+            if rest.len() < 5 {
+                return K02Dec::Truncated;
+            }
+            K02Dec::Ok { new_format: true, type_id, len: K02Len::Fixed(k02_be(&rest[1..5])), used: 6 }
+        }
+    } else {
+        let type_id = (h >> 2) & 0x0F;
+        let nlen: usize = match h & 0x03 {
+            0 => 1,
+            1 => 2,
+            2 => 4,
+            _ => 0,
+        };
+        if rest.len() < nlen {
+            return K02Dec::Truncated;
+        }
+        let len = if nlen == 0 { K02Len::Indeterminate } else { K02Len::Fixed(k02_be(&rest[..nlen])) };
+        K02Dec::Ok { new_format: false, type_id, len, used: 1 + nlen }
+    }
+}
+
+/// K02 (C17/C05/C04): `PacketHeader::try_from_reader` agrees with RFC 9580 4.2 on EVERY octet
+/// string of length 0..=6 (a header is at most 6 octets, the function never looks further):
+/// format bit, packet type id, length kind and value, octets consumed; Err exactly when bit 7 is
+/// clear or the header is truncated; no panic (the `unreachable!` arm is unreachable).
+/// Complete: `read_arr` loops fully unwound.
+#[kani::proof]
+#[kani::unwind(7)]
+#[kani::stub(alloc::fmt::format, k02_no_format)]
+fn k02_packet_header_decode_all_6_octet_prefixes() {
+    let bytes: [u8; 6] = kani::any();
+    let n: usize = kani::any();
+    kani::assume(n <= 6); // input shaping: truncated headers are part of the domain
+    let mut rd: &[u8] = &bytes[..n];
+    let r = PacketHeader::try_from_reader(&mut rd);
+    let consumed = n - rd.len();
+    match rfc9580_4_2(&bytes[..n]) {
+        K02Dec::Invalid => assert!(r.is_err(), "first octet without bit 7 accepted"),
+        K02Dec::Truncated => assert!(r.is_err(), "truncated header accepted"),
+        K02Dec::Ok { new_format, type_id, len, used } => {
+            let h = match r {
+                Ok(h) => h,
+                Err(_) => {
+                    assert!(false, "well-formed header rejected");
+                    return;
+                }
+            };
+            assert!(consumed == used, "octets consumed differ from RFC 9580 4.2");
+            assert!((h.version() == PacketHeaderVersion::New) == new_format, "format bit misread");
+            assert!(u8::from(h.tag()) == type_id, "packet type id differs from RFC 9580 4.2");
+            let got = match h.packet_length() {
+                PacketLength::Fixed(l) => K02Len::Fixed(l),
+                PacketLength::Partial(l) => K02Len::Partial(l),
+                PacketLength::Indeterminate => K02Len::Indeterminate,
+            };
+            assert!(got == len, "packet length differs from RFC 9580 4.2 / 4.2.1");
+        }
+    }
+    kani::cover!(n == 6 && bytes[0] == 0xC2 && bytes[1] == 0xFF && r.is_ok());
+    kani::cover!(n == 5 && bytes[0] == 0x8A && r.is_ok()); // legacy, 4-octet length
+    kani::cover!(n == 1 && bytes[0] == 0x8B && r.is_ok()); // legacy, indeterminate
+    kani::cover!(n == 2 && bytes[0] == 0xCB && bytes[1] == 0xE9 && r.is_ok()); // partial
+    kani::cover!(n == 3 && bytes[0] == 0x3F && r.is_err());
+}
